@@ -4,7 +4,7 @@ CONSTANTS
   Tree <- Skeleton
   SliceNames <- Names
   MaxSrc = 3
-  MaxRef = 3
+  MaxRef = 2
   SpellingSet = "dup"
 INVARIANT ResolveOk
 CHECK_DEADLOCK FALSE
